@@ -89,6 +89,10 @@ type vInvocation struct {
 	streaming bool
 	ctx       context.Context
 	stream    grpc.ServerStream
+	// flow-control state of the stream at the moment the handler was entered
+	fcSender, fcReceiver bool
+	rcvWindow, sndWindow uint32
+	rcvQueued            uint64
 }
 
 type vSvcImpl struct{ name string }
@@ -110,7 +114,22 @@ func vHandlers(hl *vHandlerLog) grpchan.HandlerMap {
 			return &emptypb.Empty{}, nil
 		}
 		stream := func(srv any, st grpc.ServerStream) error {
-			hl.calls = append(hl.calls, vInvocation{svc: srv.(*vSvcImpl).name, method: sn + "/s", streaming: true, ctx: st.Context(), stream: st})
+			inv := vInvocation{svc: srv.(*vSvcImpl).name, method: sn + "/s", streaming: true, ctx: st.Context(), stream: st}
+			if ss, ok := st.(*tunnelServerStream); ok {
+				if ds, ok := ss.sender.(*defaultSender); ok {
+					inv.fcSender, inv.sndWindow = true, ds.currentWindow.Load()
+				}
+				if fr, ok := ss.receiver.(*defaultReceiver[tunnelpb.ClientToServerFrame]); ok {
+					inv.fcReceiver = true
+					fr.mu.Lock()
+					inv.rcvWindow = fr.currentWindow
+					for e := fr.items.Front(); e != nil; e = e.Next() {
+						inv.rcvQueued += uint64(fr.measure(e.Value.(tunnelpb.ClientToServerFrame)))
+					}
+					fr.mu.Unlock()
+				}
+			}
+			hl.calls = append(hl.calls, inv)
 			return hl.result
 		}
 		desc := &grpc.ServiceDesc{
@@ -366,20 +385,14 @@ func verifH_SrvNewStream() {
 		verifAssert(len(rmd) == 0, "C02+C17.no-request-metadata-means-none")
 	}
 	// C06/C11: the stream's flow-control components (visible through the ServerStream a streaming handler gets)
-	if ss, isStream := inv.stream.(*tunnelServerStream); isStream {
-		_, fcS := ss.sender.(*defaultSender)
-		fr, fcR := ss.receiver.(*defaultReceiver[tunnelpb.ClientToServerFrame])
+	if inv.streaming {
 		wantFC := rev == tunnelpb.ProtocolRevision_REVISION_ONE
-		verifAssert(fcS == wantFC && fcR == wantFC, "C11.srv-flow-control-iff-revision-one")
-		if wantFC && fcS && fcR {
+		verifAssert(inv.fcSender == wantFC && inv.fcReceiver == wantFC, "C11.srv-flow-control-iff-revision-one")
+		if wantFC && inv.fcSender && inv.fcReceiver {
 			verifCover("fc-stream")
 			// the receiver enforces the window this server advertises; the sender starts with the peer's
-			q := uint64(0)
-			for e := fr.items.Front(); e != nil; e = e.Next() {
-				q += uint64(fr.measure(e.Value.(tunnelpb.ClientToServerFrame)))
-			}
-			verifAssert(uint64(fr.currentWindow)+q == initialWindowSize || fr.cancelled, "C06.srv-receiver-enforces-the-advertised-window")
-			verifAssert(ss.sender.(*defaultSender).currentWindow.Load() <= win, "C06+C11.srv-sender-starts-with-the-peers-window")
+			verifAssert(uint64(inv.rcvWindow)+inv.rcvQueued == initialWindowSize, "C06.srv-receiver-enforces-the-advertised-window")
+			verifAssert(inv.sndWindow == win, "C06+C11.srv-sender-starts-with-the-peers-window")
 		}
 	}
 	d, hasDeadline := verifDeadline(inv.ctx)
